@@ -106,13 +106,20 @@ def firstField (text : List Nat) : Option (List Nat) :=
   | [] => none
   | f => some f
 
+/-- `str.lower()` on one code point, restricted to ASCII: no code point outside `A`-`Z` has a hexadecimal digit
+(or any ASCII letter a-f) as its lower case, so for the comparison with a `hexdigest()` nothing else matters. -/
+def lowerAscii (c : Nat) : Nat := if 65 ≤ c && c ≤ 90 then c + 32 else c
+
 /-- what one GET of `URL + '.md5'` delivers, before it is parsed -/
 inductive SumAnswer where
   | text (t : List Nat)   -- HTTP 200 with this text
   | error                 -- non-200 (`raise_for_status()` inside the `try`)
 deriving Repr, DecidableEq
 
-/-- datasets.py:84-90 for one answer.  `render` lists the hash values that some body has together with their
+/-- datasets.py:84-90 and the comparison `_md5(path) == checksum` of `_check_md5` (datasets.py:80) for one answer.
+The comparison is the one of hexadecimal numerals, i.e. letter case is ignored (`hashlib`'s `hexdigest()` is lower
+case, `certutil` / `Get-FileHash` publish upper case): the field is lower-cased before it is compared.
+`render` lists the hash values that some body has together with their
 `hexdigest()` text; a field that renders no listed hash value is the checksum `other` (to be chosen outside
 the hash values of the bodies: such a field matches no file). -/
 def parseSum (render : List (Nat × List Nat)) (other : Nat) : SumAnswer → SumResp
@@ -121,7 +128,7 @@ def parseSum (render : List (Nat × List Nat)) (other : Nat) : SumAnswer → Sum
     match firstField t with
     | none => .missing
     | some f =>
-      match render.find? (fun r => r.2 == f) with
+      match render.find? (fun r => r.2 == f.map lowerAscii) with
       | some r => .avail r.1
       | none => .avail other
 
